@@ -6,7 +6,7 @@
 //verif:cover VerifC19ListTokens look-back-boundary truncated-by-max
 //verif:assume append under a fault: one transient fault at a solver-chosen store call of an append (token generator touch / attribute read, entry write), followed by a fault-free append a second later
 //verif:cover VerifC19AddFaults append-failed
-//verif:cover VerifC19ListEntries multi-read get-fails empty-payload
+//verif:cover VerifC19ListEntries multi-read get-fails empty-payload transfer-cut
 //verif:cover VerifC19AppendThenList appended
 package wal
 
@@ -222,16 +222,24 @@ func VerifC19ListEntries() {
 	}
 	failing := ""
 	failIdx := -1
-	if len(want) > 0 && vChoose("getFails", 2) == 1 {
+	if how := vChoose("getFails", 3); len(want) > 0 && how > 0 {
 		failIdx = vChoose("which", len(want))
 		failing = want[failIdx]
-		wl.fail = func(op, key string) error {
-			if op == "get" && key == failing {
-				return errVFault
+		if how == 1 {
+			wl.fail = func(op, key string) error {
+				if op == "get" && key == failing {
+					return errVFault
+				}
+				return nil
 			}
-			return nil
+			vCover("get-fails")
+		} else {
+			// the transfer of that entry is cut after some bytes
+			n := len(wl.data[failing])
+			cut := []int{0, 1, n - 1}[vChoose("cutAt", 3)] // before the first byte, after it, before the last one
+			wl.cutAfter = map[string]int{failing: cut}
+			vCover("transfer-cut")
 		}
-		vCover("get-fails")
 	}
 	max := vChoose("max", 3) + 5
 	entries, _, err := w.ListEntries(context.Background(), from, max)
